@@ -173,6 +173,16 @@ func init() {
 		outs := []string{run(h1)}
 		_, _ = h2.ProcessDeposits(big.NewInt(3), big.NewInt(7)) // an instance with a history
 		outs = append(outs, run(h2), run(h1))
+		if outs[0] != "err" { // what HandleEvents puts on the message channel
+			ch := make(chan []*message.Message, 64)
+			conn := &c19SubConn{events: func(s, e *big.Int) []*parser.Event { return evs }}
+			h3 := subListenerR.NewFungibleTransferEventHandler(zerolog.Context{}, uint8(u64(a[0])), c19SubDepositHandler{}, ch, conn)
+			if h3.HandleEvents(new(big.Int).Set(s), new(big.Int).Set(e)) != nil {
+				outs = append(outs, "err")
+			} else {
+				outs = append(outs, renderEvmDeposits(c19Drain(ch, c19CountGood(a[3]))))
+			}
+		}
 		return agreeOut(outs)
 	}
 	// subretryids <domain> <start> <end> <height> <deposits>  =>  dest=nonce.msgid,…;…   (messages of the retried block)
